@@ -41,7 +41,7 @@ PROPS = {
         "title": "Inference-limited execution is deterministic and faithful",
         "v_units": ["cwil"],
         "k_groups": [],
-        "replay": None,
+        "replay": "cwil",
         "level": "proof",
     },
     "C33": {
